@@ -296,6 +296,8 @@ class Exec:
             if ac is not None:
                 yield st, ac(self, st, base); return
             yield st, AbsMethod(base, base.ty.args[0], attr); return
+        if isinstance(base, BuiltinRef) and base.bound is None and attr != "__name__":
+            yield st, BuiltinRef(base.name + "." + attr); return
         if isinstance(base, (BuiltinRef, TypeOf)) and attr == "__name__":
             yield st, (base.name if isinstance(base, BuiltinRef) else fresh(STR, "typename")[0]); return
         if isinstance(base, (Sym, str, list, UFL, dict, tuple, UFMap, UFDict)):
